@@ -270,9 +270,21 @@ def gen_not(rng, vocab, dirs):
         (d + '/<<?>/>*', 'exh'), (d + '/**/*', 'exh'), ('<%s:1>/**' % d, 'exh'), ('{%s,%s}/**' % (d, n), 'exh'),
         ('{%s/**,{%s/**,*.md}}' % (d, n), 'mixed'), ('<%s/**:1>' % d, 'exh'), ('{{%s/**}}' % d, 'exh'),
         ('**/' + d + '/*', 'nonexh'), ('*/**', 'exh'), ('**/' + n + '/**', 'exh'),
+        # exhaustive for some alternatives only, NESTED in a concatenation or repetition (is_exhaustive = Sometimes):
+        # into_alternatives splits top-level alternations only
+        (d + '/{' + n + '/**,' + n + '}', 'sometimes'), ('{' + d + ',' + n + '}/{**,' + n + '}', 'sometimes'),
+        ('<' + d + '/{**,' + n + '}:1>', 'sometimes'), (d + '/{*/**,*}', 'sometimes'), ('**/' + d + '/{' + n + '/**,*.txt}', 'sometimes'),
+        ('{' + d + '/{**,' + n + '},*.md}', 'sometimes'),
         # rooted patterns never match a root-relative path
         ('/**', 'rooted'), ('/' + d + '/**', 'rooted'), ('{/**,%s}' % n, 'rooted-mixed'), ('/**/' + n, 'rooted'),
     ]
+    # a DIRECTORY of the tree reached through the nonexhaustive alternative of a nested alternation
+    deep = [x for x in dirs if len(x) >= 2]
+    if deep:
+        dd = rng.choice(deep)
+        par, nm = esc(dd[-2]), esc(dd[-1])
+        table += [('**/%s/{%s/**,%s}' % (par, n, nm), 'sometimes'), ('%s/{%s/**,%s}' % ('/'.join(esc(x) for x in dd[:-1]), n, nm), 'sometimes'),
+                  ('**/{%s/**,%s}' % (n, nm), 'sometimes-top'), ('<**/%s/{%s/**,%s}:1>' % (par, n, nm), 'sometimes')]
     weights = [1 if e in ('**', '*/**', '*') else 3 for e, _ in table]
     return rng.choices(table, weights)[0]
 
